@@ -884,7 +884,10 @@ pub fn is_monotone_live(e: &E, env: &Env) -> bool {
                     is_monotone_live(b, env)
                 }
             }
-            _ => false,
+            // a GATE: `? c a c0` = a if bit 0 of c is set, bottom otherwise — monotone in c and a
+            // (the bit, once set, stays set as values ascend); `a` is only CALLED once the gate is
+            // open, so the call graph depends on the values
+            _ => **b == E::C(0) && is_monotone_live(c, env) && is_monotone_live(a, env),
         },
         _ => false,
     }
@@ -951,10 +954,25 @@ fn fallback_reference(env: &Env) -> Vec<Outcome> {
 /// input-controlled): (`on_cycle[q]`, `reach[q][x]` = a non-empty path q → x exists)
 pub fn cycle_info(env: &Env) -> (Vec<bool>, Vec<Vec<bool>>) {
     let n = env.prog.nodes.len();
-    let dummy = vec![0u32; n];
+    // calls behind value-controlled gates belong to the graph once the gate opens: take the call
+    // graph at the converged (Kleene) values; for programs without gates this is the static graph
+    let mut vals = vec![0u32; n];
+    if !env.prog.nodes.iter().any(|x| x.0 == Kind::Fb) {
+        for _ in 0..(8 * n + 16) {
+            let mut next = vals.clone();
+            for q in 0..n {
+                let mut calls = vec![];
+                next[q] = calls_of(&env.prog.nodes[q].1, env, &vals, &mut calls);
+            }
+            if next == vals {
+                break;
+            }
+            vals = next;
+        }
+    }
     let mut graph = vec![vec![]; n];
     for q in 0..n {
-        calls_of(&env.prog.nodes[q].1, env, &dummy, &mut graph[q]);
+        calls_of(&env.prog.nodes[q].1, env, &vals, &mut graph[q]);
     }
     let reach: Vec<Vec<bool>> = (0..n)
         .map(|from| {
@@ -1451,6 +1469,12 @@ fn gen_mono(r: &mut Rng, n: usize, ni: usize, depth: u32) -> E {
     if x < 50 {
         return E::Call(r.usize(n));
     }
+    if GATES.with(|g| g.get()) && x < 62 {
+        // value-controlled gate: the guarded sub-expression (and its calls) only happens once
+        // bit 0 of the guard's value is set — cycles that form, grow and reshape WHILE iterating
+        let guard = if r.chance(2, 3) { E::Call(r.usize(n)) } else { gen_mono(r, n, ni, depth - 1) };
+        return E::If(Box::new(guard), Box::new(gen_mono(r, n, ni, depth - 1)), Box::new(E::C(0)));
+    }
     if x < 70 {
         return E::BOr(Box::new(gen_mono(r, n, ni, depth - 1)), Box::new(gen_mono(r, n, ni, depth - 1)));
     }
@@ -1476,6 +1500,11 @@ fn strip_calls(e: &mut E) {
 }
 
 thread_local! {
+    /// flavour 6: `gen_mono` also emits value-controlled gates
+    static GATES: std::cell::Cell<bool> = const { std::cell::Cell::new(false) };
+}
+
+thread_local! {
     /// restriction of the cyclic generator to some flavours (0 monotone fixpoint, 1 fallback,
     /// 2 with no-recovery nodes, 3 non-monotone, 4 acyclic feeders + fixpoint); empty = all
     pub static CYCLE_FLAVOURS: std::cell::RefCell<Vec<u8>> = const { std::cell::RefCell::new(Vec::new()) };
@@ -1492,6 +1521,11 @@ pub fn gen_cycle_case(r: &mut Rng) -> Case {
     if flavour == 5 {
         return gen_cycle_untracked_case(r);
     }
+    GATES.with(|g| g.set(flavour == 6));
+    if flavour == 6 && r.chance(1, 4) {
+        return gen_gated_nested_case(r);
+    }
+    let flavour = if flavour == 6 { 0 } else { flavour };
     let nplain = if flavour == 4 { 1 + r.usize(2) } else { 0 };
     for q in 0..n {
         let (kind, body) = match flavour {
@@ -1529,6 +1563,49 @@ pub fn gen_cycle_case(r: &mut Rng) -> Case {
             let d = if r.chance(3, 4) { None } else { Some(r.below(3) as u8) };
             ops.push(Op::Set(r.usize(prog.ninputs), r.below(256) as u32, d));
         } else {
+            ops.push(Op::Synth(r.below(3) as u8));
+        }
+    }
+    Case { prog, init, ops }
+}
+
+/// directed part of flavour 6: an outer head over an inner query that turns into a NESTED,
+/// self-referential head only in a later iteration of the outer one (its self-call sits behind a
+/// gate on the outer value), and whose value computed from a bottom self-read equals the value it
+/// had as a plain participant one iteration earlier: `outer = base_o | inner`,
+/// `inner = base_i | gate(outer, gate(inner, extra))` with bit 0 in `base_i`.  Least fixpoint:
+/// `inner = base_i | extra`.  Histories write the inner query's own inputs right before entering
+/// through either member.
+fn gen_gated_nested_case(r: &mut Rng) -> Case {
+    let mut prog = Prog::empty();
+    prog.ninputs = 3 + r.usize(2);
+    let n = 2 + r.usize(4);
+    let fixk = |r: &mut Rng| [Kind::Fix, Kind::FixJoin][r.usize(2)];
+    let gate = |c: E, a: E| E::If(Box::new(c), Box::new(a), Box::new(E::C(0)));
+    let or = |a: E, b: E| E::BOr(Box::new(a), Box::new(b));
+    // node 0 = outer, node 1 = inner
+    let base_o = if r.chance(1, 2) { E::In(0) } else { E::C(1 << r.below(8)) };
+    prog.nodes.push((fixk(r), or(base_o, E::Call(1))));
+    let base_i = or(E::In(1), E::C(1));
+    let extra = if r.chance(1, 2) { E::In(2) } else { E::C(2 << r.below(7)) };
+    let inner_self = gate(E::Call(1), extra);
+    prog.nodes.push((fixk(r), or(base_i, gate(E::Call(0), inner_self))));
+    for q in 2..n {
+        prog.nodes.push((fixk(r), gen_mono(r, q + 1, prog.ninputs, 2)));
+    }
+    let init: Vec<(u32, u8)> = (0..prog.ninputs).map(|_| (r.below(256) as u32, if r.chance(2, 3) { 0 } else { r.below(3) as u8 })).collect();
+    let mut ops = vec![];
+    for _ in 0..2 + r.usize(4) {
+        if r.chance(2, 3) {
+            ops.push(Op::Set(1, r.below(256) as u32, None));
+        }
+        if r.chance(1, 3) {
+            ops.push(Op::Set(r.usize(prog.ninputs), r.below(256) as u32, None));
+        }
+        let first = if r.chance(2, 3) { 0 } else { r.usize(n) };
+        ops.push(Op::Get(first));
+        ops.push(Op::Get(r.usize(n)));
+        if r.chance(1, 3) {
             ops.push(Op::Synth(r.below(3) as u8));
         }
     }
